@@ -21,10 +21,22 @@ Definition to_bytes_32 (v : Z) : outcome bytes :=      (* int.to_bytes(32,"big")
   if (0 <=? v) && (v <? 2 ^ 256) then Ret (be_encode 32 (Z.to_N v)) else Raise E_OVERFLOW.
 Definition from_bytes_32 (b : bytes) : Z := Z.of_N (be_decode b).
 
+(* the kind of a parsed address: Contract.info()["type"] *)
+Inductive addr_kind :=
+| AK_p2pkh                    (* "p2pkh" *)
+| AK_p2pkh_wit                (* "p2pkh_wit" *)
+| AK_other.                   (* anything else: "p2sh", "p2sh_wit", "p2tr", ..., or no "type" entry at all *)
+(* key.info().get("type") in ("p2pkh", "p2pkh_wit") *)
+Definition refers_to_key (k : addr_kind) : bool :=
+  match k with AK_p2pkh | AK_p2pkh_wit => true | AK_other => false end.
+
 (* what verify_message is given as `key_or_address` *)
 Inductive keyref :=
-| KPair (x y : Z)             (* an object with public_pair() = (x, y) *)
-| KHash (h : option bytes)    (* a parsed address / key without public pair: hash160() = h (None for p2wsh, p2tr) *)
+| KPair (x y : Z)             (* a non-str object with public_pair() = (x, y) *)
+| KHash (h : option bytes)    (* a non-str object without public_pair: hash160() = h *)
+| KAddr (k : addr_kind) (h : option bytes)
+                              (* a str that network.parse.address maps to a Contract of kind k with hash160() = h
+                                 (None for p2wsh, p2tr) *)
 | KUnparseable.               (* a str that network.parse.address maps to None *)
 
 Section MsgSign.
@@ -137,7 +149,7 @@ Section MsgSign.
     match key with
     | KPair x y =>
       Ret (match coords q with Some (qx, qy) => (x =? qx) && (y =? qy) | None => false end)
-    | KHash h =>
+    | KHash h | KAddr _ h =>                                (* a Contract has no public_pair attribute *)
       match coords q with
       | None => Raise E_ATTR                                (* None.to_bytes; unreachable from verify_message *)
       | Some (qx, qy) =>
@@ -150,9 +162,13 @@ Section MsgSign.
   (* MessageSigner.verify_message(key_or_address, signature, message=None, msg_hash=None) *)
   Definition verify_message (key : keyref) (text magic : bytes) (message : option bytes) (msg_hash : option Z)
     : outcome bool :=
-    match key with
-    | KUnparseable => Ret false
-    | _ =>
+    let refused :=                                          (* the two early `return False` of the str branch *)
+      match key with
+      | KUnparseable => true                                (* key is None *)
+      | KAddr k _ => negb (refers_to_key k)                 (* only an address that refers to a key can have signed *)
+      | _ => false
+      end in
+    if refused then Ret false else
       let attempt :=
         do z <- match message with
                 | Some m => hash_for_signing magic m
@@ -164,6 +180,5 @@ Section MsgSign.
       | Raise e => Raise e
       | OutOfFuel => OutOfFuel
       | Ret (q, is_compressed) => pair_matches_key q key is_compressed
-      end
-    end.
+      end.
 End MsgSign.
